@@ -102,3 +102,40 @@ func VerifStatusReporterFrame(h *Hub, timeout time.Duration) (frame []byte, ok b
 		return nil, false
 	}
 }
+
+// VerifStatusLagFrames runs the real statsReporter and plays a stats listener that lags by one report:
+// it takes the first broadcast frame WITHOUT copying it (as a queued message is held by reference),
+// lets `between` change the membership, takes the second frame, and only then looks at the first again.
+// It returns the first frame as it was at hand-off, as it is afterwards, and the second frame.
+func VerifStatusLagFrames(h *Hub, between func(), timeout time.Duration) (atHandoff, afterwards, second []byte, ok bool) {
+	closed := make(chan struct{})
+	var wg sync.WaitGroup
+	wg.Add(1)
+	c := &Client{hub: h, send: make(chan message, 4), topic: "stats", name: "verif-reporter"}
+	go c.statsReporter(closed, &wg, time.Millisecond)
+	defer close(closed)
+	var held []byte
+	select {
+	case m := <-h.broadcast:
+		held = m.data
+		atHandoff = append([]byte(nil), m.data...)
+	case <-time.After(timeout):
+		return nil, nil, nil, false
+	}
+	between()
+	select {
+	case m := <-h.broadcast:
+		second = append([]byte(nil), m.data...)
+	case <-time.After(timeout):
+		return nil, nil, nil, false
+	}
+	afterwards = append([]byte(nil), held...)
+	return atHandoff, afterwards, second, true
+}
+
+// VerifStatusRemoveTopic takes every client filed under topic out of the membership table
+func VerifStatusRemoveTopic(h *Hub, topic string) {
+	h.mu.Lock()
+	delete(h.clients, topic)
+	h.mu.Unlock()
+}
